@@ -404,6 +404,7 @@ func runC06(p *Program, r *Report) {
 	c03closepayload(p, r, "C06.parse")
 	c06closereadYield(p, r, "C06.closeread")
 	c03fail(p, r, "C06.fail")
+	cAfterClose(p, r, "C06.after-close")
 }
 
 // varargsOf returns the values stored into the variadic slice passed as the last argument of ev.
